@@ -43,9 +43,9 @@ PROP = Prop(
         'the read-only frame tracks local aliases flow-insensitively and is closed under the calls listed; the detector functions update only their own section list',
     ],
     explanation='Deductive: PCFGPasswordScorer.parse classifies an input in which the e-mail (else the website) detector finds something as e (w) with probability 0, gives an '
-                'unsupported structure 0, returns as score exactly the left-to-right product of the table entries of every detected segment and of the base structure '
-                '(0 as soon as one is missing), gives category p only to a score above the limit or an OMEN level within the maximum, and updates no field of the scorer. '
+                'unsupported structure 0, returns as score either 0 or exactly the left-to-right product of the table entries of every detected segment and of the base structure '
+                '(0 as soon as one is missing or a letter cannot be rebuilt by the guesser), gives category p only to a score above the limit or an OMEN level within the maximum, and updates no field of the scorer. '
                 'OmenScorer.parse returns the level sum or -1 (C11.scorer) and, by the frame obligations C13.score.readonly.frame.* (AST, all paths), neither it nor '
                 'PCFGPasswordScorer.parse nor the multi-word detector they consult update the scorer, so a score is a function of the string and the loaded ruleset. '
-                'Bounded: non-zero scores against the real guesser. Known finding F15 (letters without a one-to-one case mapping).',
+                'Bounded: non-zero scores against the real guesser. A letter the guesser cannot rebuild from its lower-case form and the mask forces the score to 0 (defect F15, repaired).',
 )
